@@ -4006,11 +4006,21 @@ def _is_order_dependent(expr):
         CumulativeFinalize,
         TakeLast,
     )
+    from dask_expr._reductions import IsMonotonicIncreasing
     from dask_expr._rolling import RollingReduction
 
     return isinstance(
         expr,
         (
+            # the first / last rows, the rows of some partitions, positions as
+            # labels and samples are others once the rows are sorted, shuffled,
+            # repartitioned or filtered
+            Head,
+            Tail,
+            Partitions,
+            Sample,
+            ResetIndex,
+            IsMonotonicIncreasing,
             CumulativeAggregations,
             CumulativeBlockwise,
             CumulativeFinalize,
@@ -4062,8 +4072,9 @@ def _check_dependents_are_predicates(
                 return False
 
         if _is_order_dependent(e):
-            # cumulative, shift/diff/fill and rolling operations look at neighbouring
-            # rows: the predicate changes when rows are removed or reordered below it
+            # cumulative, shift/diff/fill, rolling and head/tail operations look at
+            # neighbouring rows or at positions: the predicate changes when rows are
+            # removed or reordered below it
             return False
 
         allowed_expressions.add(e._name)
